@@ -5,17 +5,18 @@
    Besides replaying the component model the driver evaluates, per session, the property monitor and the plain
    statements on the projected trace and cross-checks them against the theorems' predictions for the repaired
    variant (MODELBUG if the extracted code disagrees with what is proved). *)
-(* variants: v<s><o><l><p><g> = fix_sent, fix_order, fix_l2stop, fix_prune, fix_ghost on top of the first three repairs;
-   "head" = v10111 = /repo HEAD; "repaired" = v11111; "defective" = the code as first found *)
+(* variants: v<s><o><l><p><q><g> = fix_sent, fix_order, fix_l2stop, fix_prune, fix_presend, fix_ghost on top of the first
+   three repairs; "head" = v101101 = /repo HEAD; "repaired" = v111111; "defective" = the code as first found *)
 let variant_of name =
-  let mk s o l p g = { fix_counters = true; fix_stop = true; fix_active = true; fix_sent = s; fix_order = o; fix_l2stop = l;
-                       fix_prune = p; fix_ghost = g } in
+  let mk s o l p q g = { fix_counters = true; fix_stop = true; fix_active = true; fix_sent = s; fix_order = o; fix_l2stop = l;
+                         fix_prune = p; fix_presend = q; fix_ghost = g } in
   match name with
-  | "repaired" | "" -> mk true true true true true
-  | "head" -> mk true false true true true
+  | "repaired" | "" -> mk true true true true true true
+  | "head" -> mk true false true true false true
   | "defective" -> { fix_counters = false; fix_stop = false; fix_active = false; fix_sent = false; fix_order = false;
-                     fix_l2stop = false; fix_prune = false; fix_ghost = false }
-  | s when String.length s = 6 && s.[0] = 'v' -> mk (s.[1] = '1') (s.[2] = '1') (s.[3] = '1') (s.[4] = '1') (s.[5] = '1')
+                     fix_l2stop = false; fix_prune = false; fix_presend = false; fix_ghost = false }
+  | s when String.length s = 7 && s.[0] = 'v' ->
+    mk (s.[1] = '1') (s.[2] = '1') (s.[3] = '1') (s.[4] = '1') (s.[5] = '1') (s.[6] = '1')
   | s -> failwith ("unknown variant " ^ s)
 
 let c4_of a b c d = { rxb = n_of_decimal a; txb = n_of_decimal b; rxp = n_of_decimal c; txp = n_of_decimal d }
@@ -87,6 +88,7 @@ let run_case v line =
     let late_put = Array.make k None in       (* ... and the session was released before that write reached the store *)
     let detached = Array.make k false in      (* ... or it was released meanwhile: the response acts on the detached object *)
     let ghosted = Array.make k false in
+    let forgot = Array.make k false in        (* excuse Q: the process restarted while an Interim of the session was unanswered *)
     let detached_seen = Array.make k false in  (* printed letter G: a late response was delivered for a released session *)       (* excuse G: a late response re-created the checkpoint of a released session *)
     let racy = ref false in
     let nops = List.length ops in
@@ -154,7 +156,8 @@ let run_case v line =
             (* while responses are held every Interim of this tick is "sent, no response yet" *)
             GTick (bucket_of b, (if !hold_int then nat_list_of_mask ((1 lsl k) - 1) 0 k else nat_list_of_mask (uint m) 0 k),
                    parse_snap sn)
-          | ["B"] -> Array.fill flight_valid 0 k false; Array.fill detached 0 k false; GRestart
+          | ["B"] -> Array.iteri (fun j l -> if l <> [] then forgot.(j) <- true) pending_resp;
+            Array.fill flight_valid 0 k false; Array.fill detached 0 k false; GRestart
           | ["P"; p] -> GPrune (p = "1")
           | ["H"; _] | ["U"] | ["UW"] -> GPrune false       (* placeholder, handled below *)
           | _ -> raise Bad in
@@ -192,6 +195,7 @@ let run_case v line =
               pending_resp.(j) <- [];
               let rt = List.map (fun ok ->
                   if ok && flight_valid.(j) then ignore (step_one (GAck (nat_of_int j)));
+                  if (not ok) && flight_valid.(j) then ignore (step_one (GNack (nat_of_int j)));
                   if flight_valid.(j) && !put_hold then pending_put.(j) <- Some ok;
                   if detached.(j) then begin
                     detached_seen.(j) <- true;
@@ -211,6 +215,12 @@ let run_case v line =
           let held_tok t = if String.length t > 2 && String.sub t (String.length t - 2) 2 = ":f"
             then String.sub t 0 (String.length t - 1) ^ "h" else t in
           "[" ^ String.concat " " (List.map (fun (_, t) -> held_tok t) toks) ^ "]"
+        | "T" :: _ ->
+          (* an Interim whose request fails is answered at once: the failure checkpoints the session ([ENack]) *)
+          let toks = step_one ev in
+          List.iter (fun (j, t) -> if String.length t > 2 && String.sub t (String.length t - 2) 2 = ":f"
+                      then ignore (step_one (GNack (nat_of_int j)))) toks;
+          "[" ^ String.concat " " (List.map snd toks) ^ "]"
         | _ -> "[" ^ String.concat " " (List.map snd (step_one ev)) ^ "]" end) ops in
     let dump = List.mapi (fun j s ->
         let p = Printf.sprintf "s%d=b%d" j (if s.inb then 1 else 0) in
@@ -237,7 +247,7 @@ let run_case v line =
         let fp_or_np = v.fix_prune || np in
         (* cross-check of the extracted code against the theorems (variants with fix_sent) *)
         let bug = t' <> t ||
-                  (v.fix_sent && not wraps && (v.fix_ghost || no_late evs) &&
+                  (v.fix_sent && v.fix_presend && not wraps && (v.fix_ghost || no_late evs) &&
                    (not (accepted true v.fix_prune t) || not stp || (fp_or_np && not (ibrk && isnt && iord)) || (np && not imono))) in
         (* Every verdict bit that is 0 must have a stated excuse, else the line is marked UNEXCUSED and cannot match:
              W  a uint64 cumulative wrapped (excuses mono, snt)
@@ -246,13 +256,14 @@ let run_case v line =
              G  a late Accounting-Response re-created the checkpoint of a released session (fixed in 5478db8; the only
                 excuse for stp: the ghost entry gets a second Stop) *)
         let exc_p = pruned.(j) && not v.fix_prune and exc_d = delayed.(j) && not v.fix_order
-        and exc_g = ghosted.(j) in   (* only set for variants without fix_ghost *)
-        let any = exc_p || exc_d || exc_g in
+        and exc_g = ghosted.(j)      (* only set for variants without fix_ghost *)
+        and exc_q = forgot.(j) && not v.fix_presend in
+        let any = exc_p || exc_d || exc_g || exc_q in
         let unexcused = (not brk && not any) || (not stp && not exc_g) || (not mono && not (wraps || any))
                         || (not snt && not (wraps || any)) || (not ord && not any) in
-        Printf.sprintf "v%d=%s%s%s%s%s%s%s%s%s%s" j (b brk) (b stp) (b mono) (b snt) (b ord)
+        Printf.sprintf "v%d=%s%s%s%s%s%s%s%s%s%s%s" j (b brk) (b stp) (b mono) (b snt) (b ord)
           (if pruned.(j) then "P" else "") (if delayed.(j) then "D" else "")
-          (if detached_seen.(j) then "G" else "")
+          (if detached_seen.(j) then "G" else "") (if forgot.(j) then "Q" else "")
           (if unexcused then "UNEXCUSED" else "") (if bug then "MODELBUG" else "")) ss in
     (String.concat " " groups ^ " ; " ^ (if !racy then "racy" else if Array.exists (fun l -> l <> []) pending_resp || !put_hold then "held" else String.concat " " dump) ^ " ; " ^ String.concat " " verdicts,
      wrapped_at)
